@@ -10,6 +10,7 @@ from functools import wraps
 from inspect import signature
 from typing import AbstractSet, Any, Collection, Set, Type, TypeVar, cast
 
+from apischema.cache import reset
 from apischema.objects.fields import get_field_name
 from apischema.utils import PREFIX
 
@@ -85,6 +86,7 @@ def with_fields_set(cls: Cls) -> Cls:
         setattr(cls, attr, wraps(old)(new))
 
     _fields_set_classes.add(cls)
+    reset()  # exclude_unset support is compiled into cached serialization methods
     return cls
 
 
